@@ -12,7 +12,7 @@ import gen_fastpath
 import gen_offsets
 
 REPO = os.environ.get("VERIF_REPO", "/repo")
-GEN = "/verif/coq/Gen"
+GEN = os.path.join(os.path.dirname(os.path.dirname(os.path.dirname(os.path.abspath(__file__)))), "coq", "Gen")
 
 def main():
     status = {}
